@@ -218,3 +218,136 @@ func C04XmlSelect() {
 	}
 	zz.Fail("no terminal result within the read bound")
 }
+
+// ---- C08: the XML tree preserves order, names, prefixes, URIs, attributes, text ----
+
+// zzNsDoc: a small document exercising default and prefixed namespaces, re-declaration of
+// the same URI under another prefix, attributes (incl. a prefixed one) and mixed content.
+func zzNsDoc() *zzX {
+	uriA, uriB := "u:a", "u:b"
+	root := &zzX{name: "R"}
+	var rootAttrs [][2]interface{}
+	def := zz.NondetBool("defaultNs")
+	if def {
+		rootAttrs = append(rootAttrs, [2]interface{}{"xmlns", []byte(uriA)})
+		root.uri = uriA
+	}
+	pfx := zz.NondetBool("prefixNs")
+	if pfx {
+		rootAttrs = append(rootAttrs, [2]interface{}{"xmlns:p", []byte(uriB)})
+	}
+	root.attrs = rootAttrs
+	// child 1: plain or prefixed element with an attribute and text
+	c1 := &zzX{name: "T", kids: []*zzX{{text: zzVal("t1")}}}
+	if def {
+		c1.uri = uriA
+	}
+	if pfx && zz.NondetBool("c1prefixed") {
+		c1.prefix, c1.uri = "p", uriB
+	}
+	if zz.NondetBool("c1attr") {
+		c1.attrs = append(c1.attrs, [2]interface{}{"a", zzVal("a1")})
+	}
+	root.kids = append(root.kids, c1)
+	if zz.NondetBool("mixed") {
+		root.kids = append(root.kids, &zzX{text: []byte(" m ")})
+	}
+	// child 2: binds uriB to another prefix q (same URI, later declaration) and uses it
+	if zz.NondetBool("rebind") {
+		c2 := &zzX{name: "Q", prefix: "q", uri: uriB, attrs: [][2]interface{}{{"xmlns:q", []byte(uriB)}},
+			kids: []*zzX{{name: "x", prefix: "q", uri: uriB, kids: []*zzX{{text: zzVal("t2")}}}}}
+		root.kids = append(root.kids, c2)
+	}
+	return root
+}
+
+// buildNs: reference tree incl. the namespace-declaration attributes the decoder reports.
+func (x *zzX) buildNs(parent *Node) *Node {
+	if x.name == "" {
+		n := CreateXMLNode(TextNode, string(x.text), XMLSpecific{})
+		AddChild(parent, n)
+		return n
+	}
+	n := CreateXMLNode(ElementNode, x.name, XMLSpecific{NamespacePrefix: x.prefix, NamespaceURI: x.uri})
+	AddChild(parent, n)
+	for _, a := range x.attrs {
+		name := a[0].(string)
+		var an *Node
+		switch {
+		case name == "xmlns":
+			an = CreateXMLNode(AttributeNode, "xmlns", XMLSpecific{})
+		case len(name) > 6 && name[:6] == "xmlns:":
+			an = CreateXMLNode(AttributeNode, name[6:], XMLSpecific{NamespacePrefix: "xmlns", NamespaceURI: ""})
+		default:
+			an = CreateXMLNode(AttributeNode, name, XMLSpecific{})
+		}
+		AddChild(n, an)
+		AddChild(an, CreateXMLNode(TextNode, string(a[1].([]byte)), XMLSpecific{}))
+	}
+	for _, k := range x.kids {
+		k.buildNs(n)
+	}
+	return n
+}
+
+func C08XmlTree() {
+	doc := zzNsDoc()
+	refRoot := CreateXMLNode(DocumentNode, "", XMLSpecific{})
+	want := zzSer(doc.buildNs(refRoot))
+	sp, err := NewXMLStreamReader(&zzChunkReader{data: doc.write(nil), failAt: -1}, "/*")
+	zz.Assume(err == nil)
+	n, err := sp.Read()
+	zz.Assert(err == nil && n != nil, "the root element is delivered for target /*")
+	zz.Cover("delivered")
+	zz.Observe("tree", zzSer(n))
+	zz.Assert(zzSer(n) == want, "element order, names, prefixes, URIs, attributes (first, in order) and text as the decoder reports them")
+}
+
+// ---- C17: tree size does not grow with the number of records delivered ----
+
+func zzCount(n *Node) int {
+	k := 1
+	for c := n.FirstChild; c != nil; c = c.NextSibling {
+		k += zzCount(c)
+	}
+	return k
+}
+
+// C17Xml: <R> sep (T sep)* </R> with the same record/separator block repeated: what stays
+// reachable from the root after the k-th record was delivered and released does not depend
+// on k.
+func C17Xml() {
+	N := zz.Param("N", 3)
+	xp := []string{"/R/T", "/R/T[x='1']"}[zz.NondetChoice("xpath", 2)]
+	sepKind := zz.NondetChoice("sep", 3) // none, newline between records, text
+	sep := [][]byte{nil, []byte("\n"), []byte(" t ")}[sepKind]
+	doc := []byte("<R>")
+	doc = append(doc, sep...)
+	for i := 0; i < N; i++ {
+		doc = append(doc, []byte("<T><x>")...)
+		doc = append(doc, zzVal("xv")...)
+		doc = append(doc, []byte("</x></T>")...)
+		doc = append(doc, sep...)
+	}
+	doc = append(doc, []byte("</R>")...)
+	sp, err := NewXMLStreamReader(&zzChunkReader{data: doc, failAt: -1}, xp)
+	zz.Assume(err == nil)
+	first := -1
+	for i := 0; i < N+1; i++ {
+		n, err := sp.Read()
+		if err != nil {
+			zz.Cover("eof")
+			return
+		}
+		sp.Release(n)
+		size := zzCount(sp.root)
+		if first < 0 {
+			first = size
+		}
+		zz.Cover("record")
+		// F6: character data between records is attached to the enclosing element and never
+		// removed: one more text node per record
+		zz.KnownRegion("F6", sepKind != 0)
+		zz.Assert(size <= first, "retained tree does not grow with the number of records delivered")
+	}
+}
